@@ -485,7 +485,9 @@ def coq_term(N, reqs, groups, obs):
     rqs = []
     obs['spec_clean'] = [spec_clean(N, r) for r in reqs]
     for r, (nodes, loose) in zip(reqs, obs['spec_clean']):
-        key = (r['src'], r['dst'], bool(r.get('bidir')), r['mode'], tuple(nodes), tuple(loose))
+        # a request built from a JSON document gets its power / channel count / band from the transceiver library, an
+        # API-built one from mk_request's constants: they differ in compared attributes, so they are never twins
+        key = (r['src'], r['dst'], bool(r.get('bidir')), r['mode'], tuple(nodes), tuple(loose), r.get('build') == 'json')
         sg = sigs.setdefault(key, len(sigs))
         rqs.append(f'(mkRaw {r["id"]} {N.id[r["src"]]} {N.id[r["dst"]]} '
                    f'{listlit(map(common.zlit, c11.name_ids(N, r["nodes"])))} {c11.coq_bools(r["loose"])} {sg} '
@@ -628,7 +630,14 @@ def process(ctx, rng, cases, prop, tag, isd_cases=None, short_terms=None, short_
                               'requests_aggregation (neither paths nor DisjunctionError)', case)
                 continue
             if obs['out'] == 'skip':
-                ctx.count('skipped_service_error')
+                # ServiceError out of the route-list clean-up: legitimate only when some STRICT hop of the batch names
+                # something unusable (unknown element, or a transceiver other than the own source first / destination last)
+                if any(strict_unusable(N, r) for r in reqs):
+                    ctx.count('skipped_service_error')
+                else:
+                    ctx.case(case, True)
+                    ctx.violation('exception', 'ServiceError raised by correct_json_route_list for a batch whose include '
+                                  'lists only name usable elements (neither paths nor DisjunctionError)', case)
                 continue
             nontriv = len(groups) > 1 or any(r['nodes'] for r in reqs) or len(obs['ids']) < len(reqs)
             ctx.case(case, nontriv)
@@ -662,6 +671,17 @@ def process(ctx, rng, cases, prop, tag, isd_cases=None, short_terms=None, short_
         for (N, case, reqs, groups, obs), line in zip(meta, lines):
             judge(ctx, N, case, reqs, groups, obs, line)
         del terms, meta
+
+
+def strict_unusable(N, r):
+    """does the request hold a STRICT hop that correct_json_route_list must refuse (unknown element, or a transceiver
+    other than its own source listed first / destination listed last)?"""
+    nodes, loose = list(r['nodes']), list(r['loose'])
+    if nodes and nodes[0] == r['src']:
+        nodes, loose = nodes[1:], loose[1:]
+    if nodes and nodes[-1] == r['dst']:
+        nodes, loose = nodes[:-1], loose[:-1]
+    return any(h == 'STRICT' and (u not in N.id or N.kind[N.id[u]] == 'T') for u, h in zip(nodes, loose))
 
 
 def all_simple_ids(N, s, t, limit=2000):
